@@ -131,7 +131,7 @@ class SeqSuite(Suite):
         elif pol == "placement":
             p = rng.choice([512, 2048, 4096])
         elif pol == "buffer":
-            p = rng.choice([1, 4, 8])
+            p = rng.choice([1, 4, 8, 3, 12, 24, 12, 24])      # sizeof(Item): powers of two and others
         asserts = 1
         if pol == "static":
             p = rng.choice([64, 256, 256, 2048])
@@ -191,6 +191,8 @@ class SeqSuite(Suite):
                 kind = rng.randint(0, 7)
                 drop = coro and rng.random() < 0.25
                 sz = fs[kind] if coro else pick_size()
+                if pol == "buffer" and not coro and rng.random() < 0.5:
+                    sz = max(0, p * rng.randint(0, 30) + rng.choice([-1, 0, 0, 1, p // 2]))   # around multiples of the item size
                 if pol == "placement" and sz + ex > p:
                     continue
                 if pol == "static":
@@ -353,6 +355,8 @@ class SeqSuite(Suite):
                 if field(head, "in") == "0":
                     msgs.append("routing: the coroutine's locals are outside the memory the storage returned")
                 hv.place(fid, field(head, "at"), sz, "OVERLAP" in head)
+                if field(head, "bsz") is not None and int(field(head, "bsz")) < need:
+                    msgs.append("size: the user's buffer holds %s bytes after serving a frame of %d (sizeof(Item)=%d)" % (field(head, "bsz"), need, p))
                 fsz[fid] = sz
                 # no further heap memory for equally sized (or smaller) frames after warm-up
                 if pol in ("reusable", "buffer"):
